@@ -35,6 +35,10 @@ pub enum SOp {
     SignIcarus { node: u8, key: u8, via_helper: bool },
     SignDaedalus { node: u8, key: u8 },
     Restart { node: u8, hex: bool },
+    /// node hands its copy the witness set / body / auxiliary data it already holds again, through the raw
+    /// setters (what a signing device does that keeps the three parts separately): 0 = witness set, 1 = body,
+    /// 2 = auxiliary data
+    SetPartAgain { node: u8, part: u8 },
     /// collector `to` takes every key/bootstrap witness of `from` one by one
     Merge { from: u8, to: u8 },
 }
@@ -169,7 +173,13 @@ fn gen(seed: u64, tier: Tier) -> Case {
             4..=7 => SOp::SignVkey { node, key, via_helper: r.chance(1, 2) },
             8 | 9 => SOp::SignIcarus { node, key, via_helper: r.chance(1, 2) },
             10 => SOp::SignDaedalus { node, key },
-            11 => SOp::Restart { node, hex: r.chance(1, 2) },
+            11 => {
+                if r.chance(1, 2) {
+                    SOp::Restart { node, hex: r.chance(1, 2) }
+                } else {
+                    SOp::SetPartAgain { node, part: r.below(3) as u8 }
+                }
+            }
             _ => SOp::Merge { from: r.below(NODES as u64) as u8, to: node },
         });
     }
@@ -664,6 +674,28 @@ fn execute(c: &Case) -> Outcome {
                     }
                 }
             }
+            SOp::SetPartAgain { node, part } => {
+                if let Some(ns) = nodes[*node as usize].as_mut() {
+                    out.count("c04.raw_parts_set_again", 1);
+                    let r = match part % 3 {
+                        0 => {
+                            let ws = ns.tx.raw_witness_set();
+                            ns.tx.set_witness_set(&ws).map_err(|e| format!("{:?}", e))
+                        }
+                        1 => {
+                            let b = ns.tx.raw_body();
+                            ns.tx.set_body(&b).map_err(|e| format!("{:?}", e))
+                        }
+                        _ => match ns.tx.raw_auxiliary_data() {
+                            Some(a) => ns.tx.set_auxiliary_data(&a).map_err(|e| format!("{:?}", e)),
+                            None => Ok(()),
+                        },
+                    };
+                    if let Err(e) = r {
+                        out.violate("C04.reload", "own_part_rejected", format!("step {}: node {} cannot set the part {} it holds again: {}", step, node, part % 3, e));
+                    }
+                }
+            }
             SOp::Merge { from, to } => {
                 if from != to {
                     if let (Some(src), true) = (&nodes[*from as usize], nodes[*to as usize].is_some()) {
@@ -708,6 +740,7 @@ fn execute(c: &Case) -> Outcome {
             SOp::SignIcarus { via_helper, .. } => 6 + *via_helper as u64,
             SOp::SignDaedalus { .. } => 8,
             SOp::Restart { .. } => 9,
+            SOp::SetPartAgain { .. } => 11,
             SOp::Merge { .. } => 10,
         });
         if !out.violations.is_empty() {
